@@ -68,7 +68,10 @@ func drawPlan(t *rapid.T, g *gspec.Grammar, nFaults int, pure bool, panics bool)
 				f.Nth = gspec.U(t, 4, "faultnth")
 			}
 			if panics && gspec.U(t, 4, "faultpanic") == 0 {
-				f.Kind = gspec.Pick(t, []string{"panic_err", "panic_str", "panic_int"}, "panickind")
+				f.Kind = gspec.Pick(t, []string{"panic_err", "panic_str", "panic_int", "panic_join"}, "panickind")
+			} else if gspec.U(t, 6, "faultjoin") == 0 {
+				// an error that holds other errors (errors.Join, several %w): recorded as it is
+				f.Kind = "err_join"
 			}
 			p.Faults = append(p.Faults, f)
 		}
@@ -416,7 +419,7 @@ func compareErrors(ref *refpeg.Result, resp *vrt.Response, ctx *vrt.Ctx) string 
 			return fmt.Sprintf("error %d: want %q, got %q", i, w.Msg, g.Msg)
 		}
 		if w.Injected {
-			ie, ok := g.Inner.(*vrt.InjectedError)
+			ie, ok := vrt.InjectedOf(g.Inner)
 			if !ok {
 				return fmt.Sprintf("error %d: Inner is %T, want the injected error value", i, g.Inner)
 			}
@@ -559,7 +562,7 @@ func checkC11(x *X, c *Case, strict bool) *Outcome {
 func samePanic(want, got any, ctx *vrt.Ctx) bool {
 	switch w := want.(type) {
 	case *vrt.InjectedError:
-		g, ok := got.(*vrt.InjectedError)
+		g, ok := vrt.InjectedOf(got)
 		if !ok || g.Msg != w.Msg {
 			return false
 		}
